@@ -116,6 +116,23 @@ CORPUS = {
         join(1, authid="callee"), join(2, authid="caller"),
         msg(1, "reg", req=1, uri="p.q"), call(2, 1, "p.q"),
         msg(2, "cancel", req=1, opts=D(mode=S("kill"))), drop(1), call(2, 2, "p.q")]),
+    # 68071ac  final YIELD while the caller is still sending chunks
+    ("C02", "final-yield-while-caller-in-progress"): dict(realms=[{}], ops=OBS + [
+        join(1, authid="callee"), join(2, authid="caller"),
+        msg(1, "reg", req=1, uri="p.q"),
+        call(2, 1, "p.q", opts=D(progress=True)),
+        msg(1, "yield", ref={"kind": "inv", "sess": 1, "pick": -1}, args=L(S("first")), kwargs=D()),
+        msg(1, "yield", ref={"kind": "inv", "sess": 1, "pick": -1}, args=L(S("second")), kwargs=D(), final=True),
+        drop(1)]),
+    # d7de204  refused further chunk
+    ("C02", "refused-further-chunk"): dict(realms=[{}], ops=OBS + [
+        join(1, authid="callee"), join(2, authid="caller"),
+        msg(1, "reg", req=1, uri="p.q"),
+        call(2, 1, "p.q", opts=D(progress=True)),
+        msg(1, "unreg", req=2, ref={"kind": "reg", "sess": 1, "req": 1}),
+        call(2, 1, "p.q"),
+        msg(1, "yield", ref={"kind": "inv", "sess": 1, "pick": -1}, opts=D(progress=True), args=L(S("late")), kwargs=D()),
+        msg(1, "yield", ref={"kind": "inv", "sess": 1, "pick": -1}, args=L(S("later")), kwargs=D(), final=True)]),
     # 352205b  timeout overflow
     ("C13", "huge-timeout"): dict(realms=[{}], ops=OBS + [
         join(1, hello=PLAIN, authid="callee"), join(2, authid="caller"),
